@@ -471,6 +471,12 @@ def check_shared(eng, run):
         raise AnalysisError("anchor vanished: _ConnectedClientAPI.aclose")
     c14.check_close_path(eng, RuleAlias(run, "C15.conn"), CloserRegistry(eng), fn)
     c10.check_lend(eng, run, rule="C15.recv", cancel_arm=False)
+    # the asyncio transport under both receive paths of the server: received bytes are neither lost nor replaced on their way out of
+    # the protocol's internal buffer (bounded raw-buffer reads, byte conservation, read water marks within the buffer: rules of C10/C03)
+    from rules import c03
+    c10.check_raw_buffer_reads(eng, run, rule="C15.recv")
+    c10.check_conservation(eng, run, rule="C15.recv")
+    c03.check_water_marks(eng, run, rule="C15.recv")
 
 
 def run(eng, run):
